@@ -1,7 +1,7 @@
 (* Executable entry point of the calendar model (C04, C05, C06, date part of C20).
    Case = <calendar encoding> op args, see harness/src/cal.rs. *)
 From Coq Require Import ZArith List Bool.
-From RL Require Import Base.Outcome Model.Dates Model.Calendar Model.Named Run.RunBase.
+From RL Require Import Base.Outcome Model.Dates Model.Calendar Model.Named Model.SubDay Run.RunBase.
 Import ListNotations.
 Open Scope Z_scope.
 
@@ -60,6 +60,20 @@ Definition read_any (l : list Z) : outcome anycal * list Z :=
   | [] => (Panic, [])
   end.
 
+(* the calendar a datetime with time of day t (seconds after midnight) sees: Model/SubDay.v *)
+Definition read_any_at (t : Z) (l : list Z) : outcome anycal * list Z :=
+  match l with
+  | k :: r =>
+      if (k =? 0) || (k =? 3) then let '(c, r) := read_cal r in (omap (fun c => any_of_cal (cal_at c t)) c, r)
+      else if (k =? 1) || (k =? 2) then let '(u, r) := read_union r in (omap (fun u => any_of_ucal (ucal_at u t)) u, r)
+      else match r with
+           | n :: r => let '(name, r) := take n r in
+                       (omap (fun x => any_of_ucal (ucal_at (n_ucal x) t)) (named_try_new name), r)
+           | [] => (Panic, [])
+           end
+  | [] => (Panic, [])
+  end.
+
 Definition mk_mod (m : Z) : modifier :=
   if m =? 0 then Act else if m =? 1 then F else if m =? 2 then ModF else if m =? 3 then P else ModP.
 Definition mk_roll (k d : Z) : rollday :=
@@ -105,6 +119,17 @@ Definition runCal (l : list Z) : list Z :=
           | Ok c2 => [0; zb (dr_eq (a_bus c) (a_settle c) (a_bus c2) (a_settle c2))]
           end
       | 21 :: _ => [0]
+      (* 41 / 42 / 43 = 11 / 12 / 13 from a datetime with a time of day (last argument, seconds after midnight) *)
+      | 41 :: [d; n; st; t] | 42 :: [d; n; st; t] =>
+          match fst (read_any_at t l) with
+          | Ok ct => op1 ct (match r with 41 :: _ => 11 | _ => 12 end) [d; n; st]
+          | Err => [1] | Panic => [2]
+          end
+      | 43 :: [d; n; m; st; t] =>
+          match fst (read_any_at t l) with
+          | Ok ct => op1 ct 13 [d; n; m; st]
+          | Err => [1] | Panic => [2]
+          end
       | op :: args => op1 c op args
       | [] => [-1]
       end
